@@ -93,6 +93,21 @@ KeyAt(j) ==
   IF j <= Len(Scalars) THEN KItem("key.new", "scalars", [secret |-> BytesToHex(Scalars[j])])
   ELSE KItem("key.new", "random", [secret |-> BytesToHex(Prng(K("kr", <<j>>), 32))])
 
+\* spec-directed search for keys of a rare shape: the specification's own Pub64 / AddressOf are evaluated on
+\* candidate scalars until the public key's X (shape 1) or Y (2) coordinate or the address (3) starts with a zero
+\* byte, or X starts with two zero nibbles after a non-zero... (about one key in 256 each)
+ScalarOf(k) == PadLeft(BnFromNat(k), 32)
+ShapeHit(shape, k) ==
+  IF shape = 1 THEN Pub64(ScalarOf(k))[1] = 0
+  ELSE IF shape = 2 THEN Pub64(ScalarOf(k))[33] = 0
+  ELSE AddressOf(ScalarOf(k))[1] = 0
+NShapes == 3 * 2
+ShapeAt(j) ==
+  LET shape == 1 + ((j - 1) % 3)
+      from  == 1 + 5000 * ((j - 1) \div 3)
+      k     == CHOOSE c \in from..(from + 4999) : ShapeHit(shape, c)
+  IN  KItem("key.new", "shape", [secret |-> BytesToHex(ScalarOf(k))])
+
 \* ---- signatures ----------------------------------------------------------------------
 SignKeys == <<PadLeft(<<1>>, 32), PadLeft(<<2>>, 32), NMinus(1),
               HexToBytes("4f3edf983ac636a65a842ce7c78d9aa706d3b113bce9c46f30d7d21715b23b1d")>>
